@@ -1,0 +1,42 @@
+//go:build verif
+
+/*
+ * Verification hook (property C02): drive a real dagChannel from an external harness.
+ * Add-only; compiled only with -tags verif.
+ */
+
+package compose
+
+// VerifDagChannel wraps a dagChannel built by dagChannelBuilder.
+type VerifDagChannel struct{ ch *dagChannel }
+
+// VerifNewDagChannel builds the channel of a node with the given control / data predecessors;
+// the zero value of the node input is a nil map[string]any.
+func VerifNewDagChannel(controlDependencies, dataDependencies []string) *VerifDagChannel {
+	c := dagChannelBuilder(controlDependencies, dataDependencies,
+		func() any { return map[string]any(nil) }, func() streamReader { return nil })
+	return &VerifDagChannel{ch: c.(*dagChannel)}
+}
+
+func (v *VerifDagChannel) ReportValues(ins map[string]any) error { return v.ch.reportValues(ins) }
+func (v *VerifDagChannel) ReportDependencies(deps []string)      { v.ch.reportDependencies(deps) }
+func (v *VerifDagChannel) ReportSkip(keys []string) bool         { return v.ch.reportSkip(keys) }
+func (v *VerifDagChannel) Get() (any, bool, error)               { return v.ch.get(false) }
+
+// State exposes the complete channel state: control predecessor states (0 waiting, 1 ready,
+// 2 skipped), data predecessor flags, Skipped, Values.
+func (v *VerifDagChannel) State() (map[string]uint8, map[string]bool, bool, map[string]any) {
+	ctrl := make(map[string]uint8, len(v.ch.ControlPredecessors))
+	for k, s := range v.ch.ControlPredecessors {
+		ctrl[k] = uint8(s)
+	}
+	data := make(map[string]bool, len(v.ch.DataPredecessors))
+	for k, b := range v.ch.DataPredecessors {
+		data[k] = b
+	}
+	vals := make(map[string]any, len(v.ch.Values))
+	for k, x := range v.ch.Values {
+		vals[k] = x
+	}
+	return ctrl, data, v.ch.Skipped, vals
+}
